@@ -127,13 +127,18 @@ func compareSubversion(va, vb string) int {
 	var a, b string
 	var anum, bnum bool
 	var res int
-	for res == 0 {
+	for first := true; res == 0; first = false {
 		a, va, anum = nextFrag(va)
 		b, vb, bnum = nextFrag(vb)
 		if a == "" && b == "" {
 			break
 		}
-		if anum && bnum {
+		// past the first fragment an exhausted string reads as the
+		// number 0 when compared against a number (as dpkg does),
+		// otherwise "1a0" would sort after "1a" instead of equal to it
+		aZero := a == "" && !first
+		bZero := b == "" && !first
+		if (anum || aZero) && (bnum || bZero) {
 			res = cmpNumeric(a, b)
 		} else {
 			res = cmpString(a, b)
